@@ -16,6 +16,8 @@ import mir2smt as M
 from common import (BROKEN, HELD, INCONCLUSIVE, VIOLATED, Obligation, Report, Scratch, extract_fn, log)
 from native import NativeRun
 
+import c14_rewrite
+
 
 def struct_fields(src, name):
     m = re.search(r"pub struct %s \{(.*?)\n\}" % name, src, re.S)
@@ -305,9 +307,14 @@ def run(tier, seed, only=None):
         if not only or "lnotab" in only:
             for L in ((0, 2) if tier == "quick" else (0, 2, 4)):
                 lnotab(L)
+        # ------------------------------------------------------------------ stage 2: rewrite_captured_fast (engine mirsem)
+        rw_cases = []
+        if not only or "rewrite" in only:
+            rw_cases, _h = c14_rewrite.stage(rep, s, text, tier, only)
+        rw_obs = {id(ob) for ob, _c in rw_cases}
         # ------------------------------------------------------------------ native replay of unlisted counterexamples
-        todo = [o for o in rep.obls if o.get("verdict") == VIOLATED and o.get("model") and not rep.known.lookup(rep.prop, o["key"])]
-        if todo:
+        todo = [o for o in rep.obls if o.get("verdict") == VIOLATED and o.get("model") and not rep.known.lookup(rep.prop, o["key"]) and id(o) not in rw_obs]
+        if todo or rw_cases:
             helpers = """
     fn __gen(stack_len: u32, stacksize: u32, prev_lineno: u32, lasti: usize, prev_lasti: usize, lnotab: Vec<u8>) -> PyCodeGenerator {
         let mut cfg = ErgConfig::default();
@@ -324,7 +331,9 @@ def run(tier, seed, only=None):
                 g.cur_block().prev_lineno, g.cur_block().prev_lasti, g.cur_block_codeobj().lnotab)
     }
 """
-            nr = NativeRun(s, "erg_compiler", "crates/erg_compiler/codegen.rs", helpers=helpers)
+            nr = NativeRun(s, "erg_compiler", "crates/erg_compiler/codegen.rs", helpers=helpers + c14_rewrite.HELPERS)
+            for j, (ob_, call_) in enumerate(rw_cases):
+                nr.add("w%d" % j, call_)
             for i, o in enumerate(todo):
                 m = o["model"]
                 if o["key"].startswith("push_lnotab"):
@@ -337,6 +346,9 @@ def run(tier, seed, only=None):
                     call = "let mut g = __gen(%d, %d, 1, 0, 0, vec![]); g.%s(%s); __show(&g)" % (m["stack_len"], m["stacksize"], fn_, arg)
                 nr.add("r%d" % i, call)
             res, _dt = nr.run()
+            for j, (ob_, call_) in enumerate(rw_cases):
+                rep.replayed += 1
+                c14_rewrite.judge(ob_, None if res is None else res.get("w%d" % j))
             for i, o in enumerate(todo):
                 rep.replayed += 1
                 m = o["model"]
